@@ -179,13 +179,13 @@ type DriverSpec struct {
 	K      int    `json:"k,omitempty"`
 	Levels []int  `json:"levels,omitempty"`
 	// IgnoreWrites: PWM writes succeed but the value does not change
-	IgnoreWrites bool `json:"ignoreWrites,omitempty"`
-	NoEnable     bool `json:"noEnable,omitempty"`  // no pwmN_enable file
-	Modes        []int `json:"modes,omitempty"`    // accepted modes; nil = all of 0..5
-	ModeStuck    bool `json:"modeStuck,omitempty"` // mode writes succeed but are ignored
-	InitMode     int  `json:"initMode"`
-	InitPwm      int  `json:"initPwm"`
-	AutoPwm      int  `json:"autoPwm,omitempty"` // effective PWM while in automatic mode
+	IgnoreWrites bool  `json:"ignoreWrites,omitempty"`
+	NoEnable     bool  `json:"noEnable,omitempty"`  // no pwmN_enable file
+	Modes        []int `json:"modes,omitempty"`     // accepted modes; nil = all of 0..5
+	ModeStuck    bool  `json:"modeStuck,omitempty"` // mode writes succeed but are ignored
+	InitMode     int   `json:"initMode"`
+	InitPwm      int   `json:"initPwm"`
+	AutoPwm      int   `json:"autoPwm,omitempty"` // effective PWM while in automatic mode
 }
 
 type Interval struct {
@@ -220,10 +220,10 @@ type FanSpec struct {
 	Driver    DriverSpec   `json:"driver"`
 	Plant     PlantSpec    `json:"plant"`
 	// hwmon binding
-	Chip     int  `json:"chip,omitempty"`
-	Channel  int  `json:"channel,omitempty"`    // fanN_input number
-	PwmChan  int  `json:"pwmChannel,omitempty"` // 0 = same as Channel
-	ByIndex  bool `json:"byIndex,omitempty"`    // select by index instead of rpmChannel
+	Chip    int  `json:"chip,omitempty"`
+	Channel int  `json:"channel,omitempty"`    // fanN_input number
+	PwmChan int  `json:"pwmChannel,omitempty"` // 0 = same as Channel
+	ByIndex bool `json:"byIndex,omitempty"`    // select by index instead of rpmChannel
 	// cmd fans: no getRpm script
 	StartDelay Dur `json:"startDelay,omitempty"` // controller start delay (C16)
 }
